@@ -2,17 +2,24 @@
     is anchored in.  Everything runs in the [option] monad: [None] is a Go
     run-time panic (slice bounds out of range / index out of range), exactly
     where [Base.GoStr.slice] returns [None].  The Go code is mirrored
-    statement by statement, bugs included.  No proofs in this file.
+    statement by statement.  No proofs in this file.
+
+    This is the code AFTER the fix wave (fixes/c12-2 … c12-7): every slice
+    is still written with [slice] (so a missing guard would show up as
+    [None]), and Proof/Slicers.v shows that no input reaches [None].
 
     - internal/server/response/envelope.go : QuoteOrNIL, parseAddressList,
       extractHeader, BuildEnvelope  (internal/server/utils/envelope.go is a
       byte-for-byte twin: ParseAddressList, ExtractHeader, BuildEnvelope)
     - internal/server/message/fetch.go, processFetchForMessage:
-        the partial range <start.len> after a numeric section  (l.377-400),
-        BODY[TEXT]<start.len>                                   (l.513-532),
-        the HEADER.FIELDS prefix arithmetic                     (l.427-454)
+        the partial range <start.len> after a numeric section,
+        BODY[TEXT]<start.len>, both through slicePartial,
+        HasSignedPartial (signed ranges are answered BAD),
+        the HEADER.FIELDS prefix arithmetic;
+        itemsUpper := asciiUpper(items) — exactly [to_upper] of Base.GoStr,
+        for ALL bytes (no Unicode case mapping is involved any more)
     - internal/server/response/bodystructure.go, BuildBodyStructure:
-        the single-part body  rawMsg[headerEnd+4:]              (l.57-65)
+        the single-part body  rawMsg[headerEnd+sepLen:]
     - fmt.Sscanf(spec, "%d.%d", &a, &b) restricted to ASCII input (library
       function, modelled because the two partial-range sites feed it
       attacker-chosen text; tied by the correspondence suite [partial]). *)
@@ -44,18 +51,25 @@ Definition split_at_first (s : str) (c : ascii) : str * str :=
   | None => (s, [])
   end.
 
-(** one element of the comma-separated list, already trimmed and non-empty *)
+(** one element of the comma-separated list, already trimmed and non-empty:
+      if start := strings.Index(addr, "<"); start != -1 {
+        if end := strings.Index(addr[start:], ">"); end != -1 {
+          end += start; name = TrimSpace(addr[:start]); email = addr[start+1:end]; ... *)
 Definition addr_struct (addr : str) : option str :=
   ' (name, email) <-
-     (if contains_byte addr "<" && contains_byte addr ">" then
-        match index_byte addr "<", index_byte addr ">" with
-        | Some st, Some en =>
-            ' n0 <- slice_to addr (Z.of_nat st) ;;                    (* addr[:start] *)
-            ' em <- slice addr (Z.of_nat st + 1) (Z.of_nat en) ;;     (* addr[start+1:end] *)
-            Some (trim (trim_space n0) [dq], em)
-        | _, _ => Some ([], addr)
-        end
-      else Some ([], addr)) ;;
+     (match index_byte addr "<" with
+      | Some st =>
+          ' tail <- slice_from addr (Z.of_nat st) ;;                    (* addr[start:] *)
+          match index_byte tail ">" with
+          | Some en0 =>
+              let en := (Z.of_nat en0 + Z.of_nat st)%Z in
+              ' n0 <- slice_to addr (Z.of_nat st) ;;                    (* addr[:start] *)
+              ' em <- slice addr (Z.of_nat st + 1) en ;;                (* addr[start+1:end] *)
+              Some (trim (trim_space n0) [dq], em)
+          | None => Some ([], addr)
+          end
+      | None => Some ([], addr)
+      end) ;;
   let '(mailbox, host) :=
      if contains_byte email "@" then split_at_first email "@" else (email, []) in
   Some (S_ "(" ++ quote_or_nil name ++ S_ " NIL " ++ quote_or_nil mailbox ++ S_ " "
@@ -139,19 +153,17 @@ Definition build_envelope (raw : str) : option str :=
                                  a_replyto; a_to; a_cc; a_bcc; quote_or_nil inreplyto;
                                  quote_or_nil msgid] (S_ " ") ++ S_ ")").
 
-(** ---- Go int arithmetic ---- *)
+(** ---- slicePartial(data, start, length):
+      if start < 0 || length < 0 || start >= len(data) { return "" }
+      if length > len(data)-start { length = len(data) - start }
+      return data[start : start+length]
+    (all operands are within [0, len(data)], so Go's int arithmetic does not wrap) ---- *)
 Definition two63 : Z := 9223372036854775808%Z.
-Definition wrap64 (z : Z) : Z := ((z + two63) mod (2 * two63) - two63)%Z.
-
-(** ---- the common tail of both partial-range sites:
-      if start < len(p) { end := start+length; if end > len(p) { end = len(p) }; p = p[start:end] }
-      else { p = "" } ---- *)
 Definition partial_apply (p : str) (start length : Z) : option str :=
-  if (start <? zlen p)%Z then
-    let e := wrap64 (start + length) in
-    let e := if (e >? zlen p)%Z then zlen p else e in
-    slice p start e
-  else Some [].
+  if ((start <? 0) || (length <? 0) || (start >=? zlen p))%Z then Some []
+  else
+    let l := if (length >? zlen p - start)%Z then (zlen p - start)%Z else length in
+    slice p start (start + l).
 
 (** ---- fmt.Sscanf(s, "%d.%d", &a, &b), ASCII input without newlines.
     Result: the values assigned (None = left untouched); err == nil iff both
@@ -244,7 +256,9 @@ Definition header_fields (items : str) : option (option (list str)) :=
     match start with
     | Some st =>
         let prefix_len := if contains up hf_peek then 25%Z else 20%Z in
-        ' fs <- slice_from items (Z.of_nat st + prefix_len) ;;       (* items[start+prefixLen:] *)
+        ' fs <- (if (Z.of_nat st + prefix_len <=? zlen items)%Z           (* start+prefixLen <= len(items) *)
+                then slice_from items (Z.of_nat st + prefix_len)       (* items[start+prefixLen:] *)
+                else Some []) ;;
         match index_byte fs ")" with
         | Some cp =>
             ' fs' <- slice_to fs (Z.of_nat cp) ;;
@@ -263,98 +277,35 @@ Definition crlfcrlf : str := [CR; LF; CR; LF].
 Definition lflf : str := [LF; LF].
 
 Definition bs_single_body (raw : str) : option str :=
-  let he := match index raw crlfcrlf with Some i => Some i | None => index raw lflf end in
-  match he with
-  | Some i => slice_from raw (Z.of_nat i + 4)                  (* rawMsg[headerEnd+4:] *)
-  | None => Some []
-  end.
-
-(** ============ finding classes (decidable, narrow) ============ *)
-Inductive finding : Type :=
-| AddressAngle          (* an address-list element whose first ">" precedes its first "<" *)
-| PartialNegative       (* BODY[n]<s.l>: s < 0, or s + l (wrapped to int64) < s *)
-| TextPartialNegative   (* BODY[TEXT]<..>: same arithmetic, scan errors ignored *)
-| HeaderFieldsShort     (* fewer than prefixLen bytes follow the start of BODY[HEADER.FIELDS *)
-| BodystructureLfTail   (* header/body separator is LF LF within 3 bytes of the end, no CRLF CRLF *)
-| SearchOrArity.        (* SEARCH ... OR k1 a: k1 takes an argument and a is the last token (Model/SearchOr.v) *)
-
-Definition angle_bad (addr : str) : bool :=
-  match index_byte addr "<", index_byte addr ">" with
-  | Some st, Some en => (en <? st)%nat
-  | _, _ => false
-  end.
-
-Definition classify_address_list (addresses : str) : option finding :=
-  if existsb (fun e => angle_bad (trim_space e)) (split_byte addresses ",")
-  then Some AddressAngle else None.
-
-Definition header_or_empty (raw : str) (name : string) : str :=
-  match extract_header raw (S_ name) with Some v => v | None => [] end.
-
-Definition classify_envelope (raw : str) : option finding :=
-  let from := header_or_empty raw "From" in
-  let vals := [from; or_default (header_or_empty raw "Sender") from;
-               or_default (header_or_empty raw "Reply-To") from;
-               header_or_empty raw "To"; header_or_empty raw "Cc"; header_or_empty raw "Bcc"] in
-  if existsb (fun v => match classify_address_list v with Some _ => true | None => false end) vals
-  then Some AddressAngle else None.
-
-Definition partial_bad (p : str) (start length : Z) : bool :=
-  ((start <? zlen p) && ((start <? 0) || (wrap64 (start + length) <? start)))%Z.
-
-Definition classify_numeric_partial (rest payload : str) : option finding :=
-  match rest with
-  | c :: _ =>
-      if Ascii.eqb c "<" then
-        match index_byte rest ">" with
-        | Some cl =>
-            match slice rest 1 (Z.of_nat cl) with
-            | Some spec =>
-                match sscan_d_dot_d spec with
-                | (Some st, Some ln) => if partial_bad payload st ln then Some PartialNegative else None
-                | _ => None
-                end
-            | None => None
-            end
-        | None => None
-        end
-      else None
-  | [] => None
-  end.
-
-Definition classify_text_partial (items_upper body : str) : option finding :=
-  match index_byte items_upper "<", index_byte items_upper ">" with
-  | Some si, Some ei =>
-      if (si <? ei)%nat then
-        match slice items_upper (Z.of_nat si + 1) (Z.of_nat ei) with
-        | Some spec =>
-            let '(oa, ob) := sscan_d_dot_d spec in
-            let st := match oa with Some a => a | None => 0%Z end in
-            let ln := match ob with Some b => b | None => zlen body end in
-            if partial_bad body st ln then Some TextPartialNegative else None
-        | None => None
-        end
-      else None
-  | _, _ => None
-  end.
-
-Definition classify_header_fields (items : str) : option finding :=
-  let up := to_upper items in
-  match index up hf_peek with
-  | Some st => if (Z.of_nat st + 25 >? zlen items)%Z then Some HeaderFieldsShort else None
-  | None =>
-      match index up hf_body with
-      | Some st => if (Z.of_nat st + 20 >? zlen items)%Z then Some HeaderFieldsShort else None
-      | None => None
-      end
-  end.
-
-Definition classify_bs_single (raw : str) : option finding :=
   match index raw crlfcrlf with
-  | Some _ => None
+  | Some i => slice_from raw (Z.of_nat i + 4)                    (* sepLen = 4 *)
   | None =>
       match index raw lflf with
-      | Some i => if (Z.of_nat i + 4 >? zlen raw)%Z then Some BodystructureLfTail else None
-      | None => None
+      | Some i => slice_from raw (Z.of_nat i + 2)                (* sepLen = 2 *)
+      | None => Some []
       end
   end.
+
+(** ---- HasSignedPartial(items): a "<" ... ">" group containing "-".
+    Go walks the string with rest = rest[open+1:], rest[:end], rest[end+1:];
+    all three are in bounds by construction (open, end come from Index). ---- *)
+Fixpoint hsp (fuel : nat) (rest : str) : bool :=
+  match fuel with
+  | O => false
+  | S f =>
+      match index_byte rest "<" with
+      | None => false
+      | Some o =>
+          let r1 := skipn (S o) rest in
+          match index_byte r1 ">" with
+          | None => false
+          | Some e => if contains_byte (firstn e r1) "-" then true else hsp f (skipn (S e) r1)
+          end
+      end
+  end.
+Definition has_signed_partial (items : str) : bool := hsp (S (length items)) items.
+
+(** The finding classes of the pinned tree (AddressAngle, PartialNegative,
+    TextPartialNegative, HeaderFieldsShort, BodystructureLfTail, SearchOrArity)
+    were repaired in the fix wave; no class is left, every function above is
+    total (Proof/Slicers.v). *)
